@@ -1,23 +1,109 @@
-// Stream handle (stream.rs + stream_buffer.rs) over the REAL storage layers on
-// a small concrete layout, driven by k symbolically chosen calls and compared
-// with a byte vector + cursor after every call (C06); final flush must leave
-// exactly the model bytes in the image (C02/C13); results identical for each
-// configured maximum buffer size (C18).  Variant `buf8`: the overlay scales
-// STREAM_BUFFER_MIN from 1024 to 8 so that window refills, growth by x4 and the
-// clamp to the maximum are all crossed with streams of a few dozen bytes.
+// Stream handle (stream.rs + stream_buffer.rs): k symbolically chosen calls on
+// a handle compared with a byte vector + cursor after every call (C06), final
+// flush must leave exactly the model bytes in storage (C02/C13), identical
+// results for each configured maximum buffer size (C18).
+//
+// Under Kani the three storage functions of stream.rs are replaced
+// (kani::stub) by a flat byte-array model - the storage contract that the
+// h_stor harnesses check the real functions against.  Natively (counterexample
+// replay) the stubs are inactive and the same harness runs on the REAL storage
+// layers over a small concrete image with the same initial content.
+// Variant `buf8`: the overlay scales STREAM_BUFFER_MIN from 1024 to 8 so that
+// refills, growth by x4 and the clamp to the maximum are crossed with a few
+// dozen bytes.
 use super::env::*;
 use super::h_stor::*;
 use super::util::*;
 use crate::internal::directory::vacc as dacc;
 use crate::internal::minialloc::vacc as macc;
 use crate::internal::stream::vacc as sacc;
-use crate::internal::stream_buffer::vacc as bacc;
 use crate::internal::{MiniAllocator, Stream};
-use std::io::{BufRead, ErrorKind, Read, Seek, SeekFrom, Write};
-use std::sync::{Arc, RwLock};
+use std::io::{self, ErrorKind, Read, Seek, SeekFrom, Write};
+use super::lockty::RwLock;
+use std::sync::Arc;
 
 pub const CAP: usize = 64; // model capacity
 pub const L0: usize = 20; // initial stream length
+
+static mut ST: [u8; CAP] = [0; CAP]; // storage model: bytes
+static mut STLEN: usize = 0; // storage model: length
+static mut FAIL_BUDGET: u32 = 0; // faults the storage model may still inject
+static mut FAILED: u32 = 0; // faults injected so far
+static mut FAIL_READS: bool = false;
+static mut FAIL_WRITES: bool = false;
+
+fn fault(enabled: bool) -> bool {
+    unsafe {
+        if !enabled || FAIL_BUDGET == 0 {
+            return false;
+        }
+        let b: bool = kani::any();
+        if b {
+            FAIL_BUDGET -= 1;
+            FAILED += 1;
+        }
+        b
+    }
+}
+
+fn sync_len<F>(m: &mut MiniAllocator<F>, id: u32) {
+    unsafe {
+        dacc::dir_entries_mut(macc::directory_mut(m))[id as usize].stream_len = STLEN as u64;
+    }
+}
+
+pub fn model_read<F: Read + Seek>(_m: &mut MiniAllocator<F>, _id: u32, off: u64, buf: &mut [u8]) -> io::Result<usize> {
+    unsafe {
+        if fault(FAIL_READS) {
+            return Err(io::Error::from(ErrorKind::Other));
+        }
+        let len = STLEN as u64;
+        let n = if off >= len { 0 } else if len - off < buf.len() as u64 { (len - off) as usize } else { buf.len() };
+        let mut i = 0;
+        while i < n {
+            buf[i] = ST[off as usize + i];
+            i += 1;
+        }
+        Ok(n)
+    }
+}
+
+pub fn model_write<F: Read + Write + Seek>(m: &mut MiniAllocator<F>, id: u32, off: u64, buf: &[u8]) -> io::Result<()> {
+    unsafe {
+        if fault(FAIL_WRITES) {
+            return Err(io::Error::from(ErrorKind::Other));
+        }
+        assert!(off as usize <= STLEN, "C06: write-back starts beyond the end of the stored stream");
+        kani::assume(off as usize + buf.len() <= CAP);
+        let mut i = 0;
+        while i < buf.len() {
+            ST[off as usize + i] = buf[i];
+            i += 1;
+        }
+        if off as usize + buf.len() > STLEN {
+            STLEN = off as usize + buf.len();
+        }
+    }
+    sync_len(m, id);
+    Ok(())
+}
+
+pub fn model_resize<F: Read + Write + Seek>(m: &mut MiniAllocator<F>, id: u32, new_len: u64) -> io::Result<()> {
+    unsafe {
+        if fault(FAIL_WRITES) {
+            return Err(io::Error::from(ErrorKind::Other));
+        }
+        kani::assume(new_len as usize <= CAP);
+        let mut i = STLEN;
+        while i < new_len as usize {
+            ST[i] = 0;
+            i += 1;
+        }
+        STLEN = new_len as usize;
+    }
+    sync_len(m, id);
+    Ok(())
+}
 
 pub struct Model {
     pub b: [u8; CAP],
@@ -25,14 +111,15 @@ pub struct Model {
     pub pos: usize,
 }
 
-fn init_model(p: &Parts) -> Model {
-    // stream s = mini sector 0 (20 bytes)
+fn init(p: &Parts) -> Model {
     let mut b = [0u8; CAP];
     let mut i = 0;
     while i < L0 {
-        b[i] = p.data[soff(3) + i];
+        b[i] = p.data[soff(3) + i]; // stream s = mini sector 0
+        unsafe { ST[i] = b[i]; }
         i += 1;
     }
+    unsafe { STLEN = L0; }
     Model { b, len: L0, pos: 0 }
 }
 
@@ -50,10 +137,13 @@ fn step<F: Read + Write + Seek + 'static>(s: &mut Stream<F>, m: &mut Model) {
         let avail = m.len - m.pos;
         assert!(got <= n && got <= avail, "C06: read returned more bytes than requested or than the stream holds");
         assert!(got > 0 || n == 0 || avail == 0, "C06: read returned 0 before the end of the stream");
-        if got > 0 {
-            let k = any_usize_below(got);
-            assert!(buf[k] == m.b[m.pos + k], "C06: read returned bytes that differ from the bytes last written");
+        let mut ok = true;
+        let mut k = 0;
+        while k < got {
+            ok &= buf[k] == m.b[m.pos + k];
+            k += 1;
         }
+        assert!(ok, "C06: read returned bytes that differ from the bytes last written");
         m.pos += got;
     } else if op == 1 {
         let n: usize = kani::any();
@@ -76,14 +166,15 @@ fn step<F: Read + Write + Seek + 'static>(s: &mut Stream<F>, m: &mut Model) {
     } else if op == 2 || op == 5 {
         let x: i64 = kani::any();
         kani::assume(x >= -80 && x <= 80);
+        kani::assume(op != 2 || x >= 0);
+        let cur: bool = kani::any();
         let (arg, target) = if op == 2 {
             (SeekFrom::Start(x as u64), x)
-        } else if kani::any() {
+        } else if cur {
             (SeekFrom::Current(x), m.pos as i64 + x)
         } else {
             (SeekFrom::End(x), m.len as i64 + x)
         };
-        kani::assume(op != 2 || x >= 0);
         let r = s.seek(arg);
         if target >= 0 && target <= m.len as i64 {
             assert!(r.is_ok() && r.unwrap() == target as u64, "C06: seek inside [0, len] must succeed and return the new position");
@@ -118,12 +209,16 @@ macro_rules! cache_hist {
         #[kani::proof]
         #[kani::stub(std::fmt::format, stub_format)]
         #[kani::stub(std::io::copy, stub_io_copy)]
-        #[kani::unwind(70)]
+        #[kani::stub(crate::internal::stream::read_data_from_stream, model_read)]
+        #[kani::stub(crate::internal::stream::write_data_to_stream, model_write)]
+        #[kani::stub(crate::internal::stream::resize_stream, model_resize)]
+        #[kani::stub(crate::internal::stream::Stream::minialloc, sacc::stub_upgrade)]
+        #[kani::unwind(42)]
         fn $name() {
-            let p = small_parts(&[EOC, EOC], 0, L0 as u64, 1, 64);
-            let mut model = init_model(&p);
-            let file = ArrFile::new(p.data, p.len);
-            let m: MiniAllocator<FS> = assemble(file, p.len, p.fat, p.entries, p.mf, p.mfree);
+            let mut p = small_parts(&[EOC, EOC], 0, L0 as u64, 1, 64);
+            let mut model = init(&p);
+            let file = PtrFile::over(&mut p.data, p.len);
+            let m: MiniAllocator<PS> = assemble(file, p.len, std::mem::take(&mut p.fat), std::mem::take(&mut p.entries), std::mem::take(&mut p.mf), std::mem::take(&mut p.mfree));
             let arc = Arc::new(RwLock::new(m));
             let mut s = Stream::new(&arc, 1, $maxbuf);
             let mut i = 0;
@@ -134,13 +229,19 @@ macro_rules! cache_hist {
             let r = s.flush();
             assert!(r.is_ok(), "C13: final flush failed without a fault");
             {
-                let g = arc.read().unwrap();
-                let e = &dacc::dir_entries(macc::directory(&g))[1];
-                assert!(e.stream_len == model.len as u64, "C02/C13: after flush the directory entry length differs from the handle's length");
-                if model.len > 0 {
-                    let q = any_usize_below(model.len);
-                    assert!(data_byte(&g.inner().data, 1, q as u64) == model.b[q], "C02/C13: after a successful flush the image does not hold the bytes accepted by write");
+                let mut g = arc.write().unwrap();
+                let e_len = dacc::dir_entries(macc::directory(&g))[1].stream_len;
+                assert!(e_len == model.len as u64, "C02/C13: after flush the stored length differs from the handle's length");
+                let mut back = [0u8; CAP];
+                let r = sacc::read_data(&mut g, 1, 0, &mut back[..]);
+                assert!(r.is_ok() && r.unwrap() == model.len, "C02/C13: stored stream cannot be read back in full after flush");
+                let mut ok = true;
+                let mut q = 0;
+                while q < model.len {
+                    ok &= back[q] == model.b[q];
+                    q += 1;
                 }
+                assert!(ok, "C02/C13: after a successful flush the storage does not hold the bytes accepted by write");
                 assert!(g.inner().flushes >= 1, "C13: Stream::flush did not flush the underlying file");
             }
             kani::cover!(model.len > L0, "stream grew");
@@ -153,4 +254,6 @@ macro_rules! cache_hist {
 cache_hist!(cache_hist2_min, 2, 0);
 cache_hist!(cache_hist3_min, 3, 0);
 cache_hist!(cache_hist2_b12, 2, 12);
+cache_hist!(cache_hist3_b12, 3, 12);
 cache_hist!(cache_hist3_b32, 3, 32);
+cache_hist!(cache_hist4_min, 4, 0);
